@@ -333,7 +333,10 @@ class _rewrite_captured_vars(ast.NodeTransformer):
                 return _mark_ignore_name().visit(ns_node)
             return ast.Constant(value=new_value)
 
-        # If we fail, then just move on.
+        # If we fail, then just move on - but keep the value of a captured variable that stood
+        # left of the dot. Classes and modules stay names: back ends know them by name.
+        if isinstance(value, ast.Constant) and not isinstance(value.value, (type, ModuleType)):
+            return ast.Attribute(value=value, attr=node.attr, ctx=node.ctx)
         return node
 
     def visit_Lambda(self, node: ast.Lambda) -> Any:
@@ -376,6 +379,16 @@ class _rewrite_captured_vars(ast.NodeTransformer):
             or hasattr(rewritten_call.func.value, "_fields")
         ):
             rewritten_call.func = old_func
+            # A method of a captured value (`cut.conjugate()`): the call remains a call, the
+            # value it is made on is captured like any other.
+            if isinstance(old_func, ast.Attribute):
+                receiver = self.visit(old_func.value)
+                if isinstance(receiver, ast.Constant) and not isinstance(
+                    receiver.value, (type, ModuleType)
+                ):
+                    rewritten_call.func = ast.Attribute(
+                        value=receiver, attr=old_func.attr, ctx=old_func.ctx
+                    )
 
         return rewritten_call
 
